@@ -1048,7 +1048,7 @@ def explore(ctx):
                     valid_ok.add(vkey)
             if obs != "ok":
                 nontrivial += 1
-            if obs == "timeout" or (case["chan"] == "history" and "timeout" in obs_count and False):
+            if obs == "timeout":
                 timeouts += 1
             for sig, detail in devs:
                 devs_all.setdefault(sig, []).append((case, detail))
